@@ -186,6 +186,19 @@ def install():
 
         _m.random_alphanumeric = _random_alphanumeric
 
+    # N11: the file system.  kafe2's modules call the builtin open(); a module attribute `open` is injected that delegates to
+    # the active world's SimFS (and to the real builtin when no world is active).
+    import builtins
+
+    def _open(path, mode="r", *a, **k):
+        w = _CURRENT[0]
+        if w is not None and w.active and w.fs is not None:
+            return w.fs.open(path, mode, *a, **k)
+        return builtins.open(path, mode, *a, **k)
+
+    for modname in ("kafe2.fit.io.handle", "kafe2.fit._base.fit"):
+        importlib.import_module(modname).open = _open
+
     _orig["repr.datetime"] = _repr_base.datetime
     _repr_base.datetime = _DT
     _orig["repr.getpass"] = _repr_base.getpass
@@ -209,6 +222,7 @@ class SimWorld(object):
         self.getuser_raises = 0
         self.collide_names = []
         self.n_collisions_fired = 0
+        self.fs = None
         self.warnings = []
         self.stdout = None
         self._saved = {}
